@@ -119,6 +119,44 @@ theorem blocked_acquirer_enabled_after_releases (steps : List MStep) :
   obtain ⟨e1, e2⟩ := blocking_enabled_iff steps
   exact ⟨e1.2 ⟨hr, hw⟩, e2.2 hw⟩
 
+/-- **Progress for every schedule of releases.** From any reachable state, let the current
+holders release in ANY order, interleaved with any number of spurious release attempts by
+non-holders (which do nothing): as soon as every holder's release has happened (fairness:
+each holder eventually releases), the lock is idle and a blocked writer and a blocked reader
+are both enabled. -/
+theorem releases_in_any_order_unblock (steps sched : List MStep)
+    (hrel : ∀ st ∈ sched, IsRelease st = true)
+    (hr : ∀ c, (mRun {} steps).readers.count c ≤ sched.count (.endRead c))
+    (hw : ∀ c, (mRun {} steps).writers.count c ≤ sched.count (.endWrite c)) :
+    (mRun {} (steps ++ sched)).m.writeEnabled = true ∧ (mRun {} (steps ++ sched)).m.readEnabled = true := by
+  have hrun : mRun {} (steps ++ sched) = mRun (mRun {} steps) sched := by simp [mRun, List.foldl_append]
+  obtain ⟨h1, h2⟩ := run_releases sched (mRun {} steps) hrel hr hw
+  apply blocked_acquirer_enabled_after_releases
+  simp only [holders, hrun, h1, h2, List.length_nil]
+
+/-- "after a successful `UpgradeToWriter` the lock is held" — for every owner argument -/
+def C34_upgrade_full : Prop :=
+  ∀ (m : Mrsw) (o : String), (m.upgrade o).2 = .ok →
+    (m.upgrade o).1.writeEnabled = false ∧ (m.upgrade o).1.readEnabled = false
+
+/-- it holds for every non-empty owner name (decidable exclusion: `o ≠ ""`) -/
+theorem upgrade_partial (m : Mrsw) (o : String) (ho : o ≠ "") (h : (m.upgrade o).2 = .ok) :
+    (m.upgrade o).1.writeEnabled = false ∧ (m.upgrade o).1.readEnabled = false := by
+  unfold Mrsw.upgrade at h ⊢
+  by_cases h1 : m.owner ≠ ""
+  · simp [h1] at h
+  · by_cases h2 : m.numReaders > 1
+    · simp [h1, h2] at h
+    · by_cases h3 : m.numReaders = 0
+      · simp [h1, h2, h3] at h
+      · simp [h1, h2, h3, Mrsw.writeEnabled, Mrsw.readEnabled, ho]
+
+theorem upgrade_witness : ¬ C34_upgrade_full := by
+  intro h
+  have := h (({} : Mrsw).beginRead).1 "" (by decide)
+  revert this
+  decide
+
 /-- `UpgradeToWriter` does not check its owner argument: with an empty name the
 reader count is zeroed while no writer is recorded — the lock looks free to
 everyone although the caller believes it holds the write lock. (Not called
